@@ -104,9 +104,24 @@ class ReturnSignal(Exception):
     def __init__(self, value):
         self.value = value
 
+class _Break(Exception):
+    pass
+
+class _Continue(Exception):
+    pass
+
 class RaiseSignal(Exception):
     def __init__(self, node):
         self.node = node
+
+class PyError(RaiseSignal):
+    """an exception the interpreted operation itself raises (IndexError of a sequence index out of range)"""
+    def __init__(self, kind, line=0):
+        self.kind = kind
+        self.node = None
+        self.line = line
+    def __str__(self):
+        return f"{self.kind} at line {self.line}"
 
 def norm_byte(vec):
     v = list(vec)[:8]
@@ -174,10 +189,35 @@ class Interp:
             self.block(s.body if c else s.orelse, env)
         elif isinstance(s, ast.For):
             it = self.expr(s.iter, env)
-            for x in self.iterate(it, s):
-                self.assign(s.target, x, env)
-                self.block(s.body, env)
-            self.block(s.orelse, env)
+            try:
+                for x in self.iterate(it, s):
+                    self.assign(s.target, x, env)
+                    try:
+                        self.block(s.body, env)
+                    except _Continue:
+                        continue
+                else:
+                    self.block(s.orelse, env)
+            except _Break:
+                pass
+        elif isinstance(s, ast.While):
+            try:
+                while self.truth(self.expr(s.test, env), s):
+                    self.steps += 1
+                    if self.steps > self.max_steps:
+                        raise Unknown('step budget exhausted')
+                    try:
+                        self.block(s.body, env)
+                    except _Continue:
+                        continue
+                else:
+                    self.block(s.orelse, env)
+            except _Break:
+                pass
+        elif isinstance(s, ast.Break):
+            raise _Break()
+        elif isinstance(s, ast.Continue):
+            raise _Continue()
         elif isinstance(s, ast.Pass):
             return
         elif isinstance(s, ast.Delete):
@@ -455,9 +495,14 @@ class Interp:
             if a.v is not None and b.v is not None:
                 f = {ast.Add: _op.add, ast.Sub: _op.sub, ast.Mult: _op.mul, ast.FloorDiv: _op.floordiv, ast.Mod: _op.mod, ast.Div: _op.truediv, ast.LShift: _op.lshift, ast.RShift: _op.rshift,
                      ast.BitAnd: _op.and_, ast.BitOr: _op.or_, ast.BitXor: _op.xor}.get(type(op))
+                if isinstance(op, ast.Pow) and isinstance(a.v, int) and isinstance(b.v, int) and 0 <= b.v <= 4096:
+                    return AInt(a.v ** b.v)
                 if f is None:
                     return AOpaque('int op')
-                return AInt(f(a.v, b.v))
+                try:
+                    return AInt(f(a.v, b.v))
+                except (ZeroDivisionError, ValueError, TypeError) as ex:
+                    raise Unknown(f"arithmetic fails: {ex}")
             va, vb = a.vec(), b.vec()
             if va is None or vb is None:
                 return AInt(None, None)
@@ -466,6 +511,14 @@ class Interp:
                 if isinstance(op, ast.BitOr): return AInt(None, B.bor(va, vb))
                 if isinstance(op, ast.LShift) and b.v is not None: return AInt(None, B.shl(va, b.v))
                 if isinstance(op, ast.RShift) and b.v is not None: return AInt(None, B.shr(va, b.v))
+                # x % 2**k == x & (2**k - 1), x // 2**k == x >> k, x * 2**k == x << k for every int x (Python floor semantics)
+                if b.v is not None and isinstance(b.v, int) and b.v > 0 and b.v & (b.v - 1) == 0:
+                    k = b.v.bit_length() - 1
+                    if isinstance(op, ast.Mod): return AInt(None, B.band(va, B.const_bits(b.v - 1)) if b.v > 1 else [0])
+                    if isinstance(op, ast.FloorDiv): return AInt(None, B.shr(va, k))
+                    if isinstance(op, ast.Mult): return AInt(None, B.shl(va, k))
+                if a.v is not None and isinstance(a.v, int) and a.v > 0 and a.v & (a.v - 1) == 0 and isinstance(op, ast.Mult):
+                    return AInt(None, B.shl(vb, a.v.bit_length() - 1))
                 if isinstance(op, ast.Add):
                     if all(x == 0 or y == 0 for x, y in zip(va, vb)):
                         return AInt(None, B.bor(va, vb))
@@ -518,7 +571,7 @@ class Interp:
                 if isinstance(o, str):
                     return AStr([('lit', o[i.v])])
             except IndexError:
-                raise Unknown(f"index {i.v} out of range at line {getattr(sl, 'lineno', 0)}")
+                raise PyError('IndexError', getattr(sl, 'lineno', 0))
         raise Unknown(f"subscript at line {getattr(sl, 'lineno', 0)}")
 
     # ------------------------------------------------------------ text helpers
@@ -602,10 +655,28 @@ class Interp:
             return obj
         if isinstance(f, ast.Name):
             n = f.id
-            if n == 'sorted' and args and isinstance(args[0], ADict):
-                return AList([AInt(k) if isinstance(k, int) else AStr([('lit', k)]) for k in sorted(args[0].items)])
-            if n == 'sorted' and args and isinstance(args[0], AList) and all(isinstance(x, AInt) and x.v is not None for x in args[0].items):
-                return AList(sorted(args[0].items, key=lambda x: x.v))
+            if kw and n not in ('sorted', 'int', 'bytes', 'max', 'min', 'divmod') and n in ('len', 'range', 'bytearray', 'reversed', 'list', 'sum', 'enumerate', 'zip'):
+                raise Unknown(f"{n}() with keyword arguments at line {e.lineno}")
+            if n == 'sorted':
+                if set(kw) - {'reverse'} or len(args) != 1:
+                    raise Unknown(f"sorted() with key= or extra arguments at line {e.lineno}")
+                rev = kw.get('reverse', False)
+                if not isinstance(rev, bool):
+                    raise Unknown(f"sorted(reverse=<abstract>) at line {e.lineno}")
+                if isinstance(args[0], ADict):
+                    return AList([AInt(k) if isinstance(k, int) else AStr([('lit', k)]) for k in sorted(args[0].items, reverse=rev)])
+                if isinstance(args[0], AList) and all(isinstance(x, AInt) and x.v is not None for x in args[0].items):
+                    return AList(sorted(args[0].items, key=lambda x: x.v, reverse=rev))
+                raise Unknown(f"sorted() of {type(args[0]).__name__} at line {e.lineno}")
+            if n == 'enumerate' and len(args) in (1, 2):
+                start = args[1].v if len(args) == 2 and isinstance(args[1], AInt) and args[1].v is not None else (0 if len(args) == 1 else None)
+                if start is None:
+                    raise Unknown(f"enumerate start at line {e.lineno}")
+                return AList([(AInt(start + i), x) for i, x in enumerate(self.iterate(args[0], e))])
+            if n == 'zip' and args:
+                return AList([tuple(t) for t in zip(*[self.iterate(a, e) for a in args])])
+            if n == 'divmod' and len(args) == 2 and not kw:
+                return (self.binop(ast.FloorDiv(), args[0], args[1]), self.binop(ast.Mod(), args[0], args[1]))
             if n == 'len' and args and isinstance(args[0], ADict):
                 return AInt(len(args[0].items))
             if n == 'len':
@@ -625,6 +696,12 @@ class Interp:
                     vals.append(a.v)
                 return range(*vals)
             if n in ('min', 'max'):
+                if kw:
+                    raise Unknown(f"{n}() with keyword arguments at line {e.lineno}")
+                if len(args) == 1 and isinstance(args[0], (AList, ADict)):
+                    args = self.iterate(args[0], e)
+                    if not args:
+                        raise Unknown(f"{n}() of an empty sequence at line {e.lineno}")
                 vals = [a.v if isinstance(a, AInt) else None for a in args]
                 if any(v is None for v in vals):
                     raise Unknown(f"min/max of abstract ints at line {e.lineno}")
@@ -651,12 +728,17 @@ class Interp:
                     return ABytes(list(reversed(x.items)))
                 if isinstance(x, AList):
                     return AList(list(reversed(x.items)))
+                if isinstance(x, (tuple, list, range)):
+                    return AList(list(reversed(self.iterate(x, e))))
+                raise Unknown(f"reversed() of {type(x).__name__} at line {e.lineno}")
             if n == 'list':
                 x = args[0] if args else AList()
                 if isinstance(x, AList):
                     return AList(x.items)
                 if isinstance(x, ABytes):
                     return AList([self.byte_to_int(b) for b in x.items])
+                if isinstance(x, (range, tuple, list, ADict)):
+                    return AList(self.iterate(x, e))
             if n == 'sum':
                 x = args[0]
                 if isinstance(x, ABytes):
@@ -709,13 +791,30 @@ class Interp:
                     raise Unknown(f"pop of a missing key at line {e.lineno}")
                 if m in ('keys',):
                     return AList([AInt(k) if isinstance(k, int) else AStr([('lit', k)]) for k in o.items])
+                if m == 'items':
+                    return AList([(AInt(k) if isinstance(k, int) else AStr([('lit', k)]), v) for k, v in o.items.items()])
+                if m == 'setdefault' and len(args) == 2:
+                    return o.items.setdefault(self.key_of(args[0], e), args[1])
                 if m == 'values':
                     return AList(list(o.items.values()))
             if isinstance(o, AList):
                 if m == 'append':
                     o.items.append(args[0]); return None
                 if m == 'extend':
-                    o.items.extend(args[0].items); return None
+                    o.items.extend(self.iterate(args[0], e)); return None
+                if m == 'reverse' and not args:
+                    o.items.reverse(); return None
+                if m == 'insert' and len(args) == 2 and isinstance(args[0], AInt) and args[0].v is not None:
+                    o.items.insert(args[0].v, args[1]); return None
+                if m == 'sort':
+                    if args or set(kw) - {'reverse'} or not all(isinstance(x, AInt) and x.v is not None for x in o.items) or not isinstance(kw.get('reverse', False), bool):
+                        raise Unknown(f"list.sort at line {e.lineno}")
+                    o.items.sort(key=lambda x: x.v, reverse=kw.get('reverse', False)); return None
+                if m == 'pop':
+                    i = args[0].v if args and isinstance(args[0], AInt) else -1
+                    if i is None or not o.items:
+                        raise Unknown(f"list.pop at line {e.lineno}")
+                    return o.items.pop(i)
             if isinstance(o, AInt) and m == 'to_bytes':
                 n = args[0] if args else kw.get('length')
                 order = args[1] if len(args) > 1 else kw.get('byteorder')
@@ -746,11 +845,21 @@ class Interp:
                     return AStr([('hexbytes', list(o.items))])
                 if m == 'join':
                     out = []
-                    for i, x in enumerate(args[0].items):
+                    for i, x in enumerate(self.iterate(args[0], e)):
                         if i:
                             out.extend(o.items)
+                        if not isinstance(x, ABytes):
+                            raise Unknown(f"bytes.join of {type(x).__name__} at line {e.lineno}")
                         out.extend(x.items)
                     return ABytes(out)
+                if m == 'extend' or m == 'append':
+                    # bytearray mutation in place
+                    if m == 'append':
+                        o.items.append(self.int_to_byte(args[0])); return None
+                    x = args[0]
+                    o.items.extend(x.items if isinstance(x, ABytes) else [self.int_to_byte(v) for v in self.iterate(x, e)]); return None
+                if m == 'clear' and not args:
+                    o.items.clear(); return None
             if isinstance(o, AStr):
                 if m in ('upper', 'lower'):
                     return AStr([(('lit', getattr(p[1], m)()) if p[0] == 'lit' else p) for p in o.pieces])
